@@ -93,6 +93,12 @@ func handleHTTP1ClientStream(b *bufio.Reader, progress *api.ReadProgress, tcpID 
 	var body []byte
 	body, err = io.ReadAll(req.Body)
 	req.Body = io.NopCloser(bytes.NewBuffer(body)) // rewind
+	if len(req.TransferEncoding) > 0 {
+		// The body kept here has been read through the chunked decoder: it must not be
+		// reported (or re-encoded by the HAR conversion) as if it were still chunked.
+		req.TransferEncoding = nil
+		req.ContentLength = int64(len(body))
+	}
 
 	ident := fmt.Sprintf(
 		"%s_%s_%s_%s_%d_%s",
